@@ -26,6 +26,7 @@ import (
 	"net"
 	"strings"
 	"testing"
+	"time"
 
 	"golang.org/x/crypto/chacha20poly1305"
 
@@ -51,6 +52,9 @@ var c04ICMPExit bool
 func c04Build(transits int, udpSink string) (*nsNet, error) {
 	n := 2 + transits
 	nt, err := nsNew(n, func(i int, cfg *config.Config) {
+		// background cleanup tickers (idle timeout / 2) must not fire beside a controlled execution
+		cfg.ICMP.IdleTimeout = 48 * time.Hour
+		cfg.UDP.IdleTimeout = 48 * time.Hour
 		if i == n-1 {
 			cfg.ICMP.Enabled = c04ICMPExit
 			cfg.Exit.Enabled = true
